@@ -40,12 +40,16 @@ CLAIMS = {
          "sufficiency. The tie to the real ANTLR parser is the correspondence run: accept/reject AND the resulting tree are compared on all "
          "token strings up to length 4 over a 16-token alphabet (and 5 more alphabets up to length 3), random characters/tokens, generated "
          "valid programs and their mutations; panics, empty error lists, empty error texts and out-of-source positions are failing inputs."),
- "C04": ("PARTIAL. Proved about the model's parser: for every chain length the tree built for a && / || chain has exactly the operands as "
-         "leaves in source order under nodes of that operator (balanced_tree, by induction on its fuel with the midpoint arithmetic discharged by lia); "
-         "for every n a run of n '!' or '-' yields the operand for even n and one application for odd n; every macro expands around its receiver and "
-         "arguments. Not yet proved: the general round trip compile(render(tree)) = tree. The run evaluates that round trip on the implementation for "
-         "every tree with <= 2 operators over the complete operator set in both renderings and for random deeper trees, compares the model's parser "
-         "with the real one on each text, and covers all chain lengths 2-64, prefix runs 1-6 and nested macros."),
+ "C04": ("Theorem C04_roundtrip (induction on the tree with continuation lemmas for the left-associative loops and an 'eventually, for all sufficient fuel' "
+         "composition): for EVERY tree of the operator grammar - identifiers, prefix runs of any length, * / %, + -, the seven relations, && / || chains of "
+         "any length, ?:, explicit parentheses - the token rendering with minimal parentheses under CEL's precedence table parses (p_expr, any sufficient "
+         "fuel) to exactly the tree's AST: tighter operators bind first, equal levels associate to the left, logical chains build the balanced tree with the "
+         "operands in source order, parentheses group. Also proved: the balanced-tree leaf order for every chain length, prefix-run parity, macros expand "
+         "around receiver and arguments. PARTIAL in this: postfix forms (select, index, calls), literals and collection literals are outside the round-trip "
+         "theorem, and the concrete fuel of compile is not proved sufficient. Tied to the code per case: the run checks on every operator tree (all trees "
+         "with <= 2 operators in both renderings, random deeper ones, chains to 24, prefix runs to 7, mixed left-associative chains) that the real parser's "
+         "AST is the tree's AST and that the model's lexer turns the source text into exactly the rendering the theorem is about; all other trees "
+         "(postfix, literals, collections, nested macros, chains 2-64) are compared between the real parser, the model's parser and the expected tree."),
  "C12": ("PARTIAL. Theorems about the literal decoders (unquote_string / unquote_bytes transcribed): for every string of scalar values, both "
          "one-quote styles and every per-character choice among verbatim, simple escape, \\x, \\X, octal, \\u and \\U spellings the literal decodes to "
          "exactly that string (bytes: \\x/\\X/octal are single bytes, everything else its UTF-8); raw one-quote literals are verbatim; the escape "
